@@ -28,4 +28,13 @@ void *sim_repo_realloc(void *old, size_t size);
 void sim_repo_free(void *p);
 char *sim_repo_strdup(const char *s);
 char *sim_repo_strndup(const char *s, size_t n);
+/** fault point for allocators other than malloc (umem_sim): consumes one step
+ * of the armed countdown, returns true if this allocation must fail */
+bool sim_alloc_fault_point(const char *what);
+
+/* ---- umem_sim: a umem manager with accounting, red zones and faults */
+struct umem_mgr;
+struct umem_mgr *umem_sim_mgr_alloc(unsigned sub_offset);
+unsigned umem_sim_live(void);
+uint64_t umem_sim_allocs(void);
 #endif
